@@ -1,5 +1,5 @@
 // append-to: src/terminal/dirty_lines.rs
-// harness: k_dirty_to_vec props=C02,C15 kind=bounded tier=quick timeout=600 obligation=DirtyLines::to_vec/E1,E2,E3 bound="rows = 5 (all 32 flag combinations)"
+// harness: k_dirty_to_vec props=C02,C15 fns=DirtyLines::to_vec kind=bounded tier=quick timeout=600 obligation=DirtyLines::to_vec/E1,E2,E3 bound="rows = 5 (all 32 flag combinations)"
 #[cfg(kani)]
 mod verif_kani_dirty_lines {
     use super::*;
